@@ -157,6 +157,10 @@ def route(meta, rq, nulquirk=False, starquirk=False):
 def judge(meta, ev, st):
     if not ev or ev[-1][0] != "end":
         return []
+    if any(e[0] == "inflight-timeout" for e in ev):
+        # the kernel still had bytes queued after the harness' 3 s real-time watchdog: no verdict for this case
+        st["inflight_timeout_cases"] = st.get("inflight_timeout_cases", 0) + 1
+        return []
     out = []
     # split events per request (each request has its own peer, opened by "pc <pid>")
     per = {}
